@@ -63,8 +63,14 @@ theorem C15_responses_fresh :
     other than check registration -/
 theorem C15_no_global_state : Generated.globalStores = Expected.globalStores := by decide
 
+/-- tie obligation (F9): no method writes through its receiver, into a package-level map or struct, or calls a
+    sync / atomic mutator on such state — other than `CompleteConfiguration` (before serving) and the administrator's
+    user-namespace switch; in particular the controller keeps no cache between requests -/
+theorem C15_no_receiver_state : Generated.stateWrites = Expected.stateWrites := by decide
+
 #print axioms C15_sequence
 #print axioms C15_interleaving
 #print axioms C15_responses_fresh
 #print axioms C15_no_global_state
+#print axioms C15_no_receiver_state
 end PSA.Props
